@@ -58,6 +58,21 @@ def run(R, job):
                           "observed": outs[2] if outs[2] != outs[0] else outs[1], "expected": outs[0]})
             if len(fails) >= 3:
                 break
+        # the other way of adding children: the display hook of `with tag:`
+        if it % 4 == 0:
+            import sys
+            saved_hook = sys.displayhook
+            w1, w2 = R.core.Tag("div"), R.core.Tag("div")
+            try:
+                sys.displayhook = lambda v: None
+                with w1:
+                    sys.displayhook("a"); sys.displayhook(R.core.HTMLDependency("wd", "1.0", script={"src": "w.js"}, source={"subdir": "lib"})); sys.displayhook(R.core.MetadataNode()); sys.displayhook(R.core.Tag("span", "b"))
+                with w2:
+                    sys.displayhook("a"); sys.displayhook(R.core.Tag("span", "b"))
+            finally:
+                sys.displayhook = saved_hook
+            if w1.get_html_string(ind, eol) != w2.get_html_string(ind, eol):
+                fails.append({"input": "with div(): display 'a', an HTMLDependency, a MetadataNode, span('b')", "observed": w1.get_html_string(ind, eol), "expected": w2.get_html_string(ind, eol)})
         # top-level list as well
         tl = R.core.TagList(); tl.data = list(more.children)
         tb = R.core.TagList(); tb.data = list(base.children)
